@@ -71,6 +71,20 @@ func (a *AliasMangler) Mangle(sf reflect.StructField) ([]reflect.StructField, er
 		return nil, fmt.Errorf("error parsing struct tags: %w", parseErr)
 	}
 
+	// A source-specific tag (e.g. dialsenv) that has no alias of its own
+	// names the primary field only: if it stayed on the copy, both fields
+	// would go by that one name, and the alias given with the generic tag
+	// would never be consulted.
+	if len(a.tags) > 0 {
+		if _, genericAliased := aliasVals[a.tags[0]]; genericAliased {
+			for _, tag := range a.tags[1:] {
+				if _, hasOwnAlias := aliasVals[tag]; !hasOwnAlias {
+					tags.Delete(tag)
+				}
+			}
+		}
+	}
+
 	// keep track of the aliases we actually set so we can update the dialsdesc
 	setAliases := []string{}
 
